@@ -289,7 +289,9 @@ class BuiltinsMixin(object):
                     out.append((p, App('cmp', Const(NEG_CMP[v.args[0].v]),
                                        v.args[1], v.args[2])))
                 else:
-                    out.append((p, App('not', v)))
+                    # (a container is described as it is now)
+                    out.append((p, App('not', self.snapshot(v, p)
+                                       if isinstance(v, Obj) else v)))
             elif isinstance(node.op, ast.Invert):
                 out.extend(self.call_dunder(v, '__invert__', [], p, node,
                                             App('invert', v)))
@@ -2265,6 +2267,19 @@ class BuiltinsMixin(object):
             h.havoc = True
             return [(path, path.fresh('pop', self.hooks.iter_elem_type(
                 self, snap, path), meta=('elem', snap)))]
+        if name in ('difference_update', 'intersection_update') and \
+                kind == 'set' and len(args) == 1 and not gens and \
+                not h.havoc and \
+                getattr(h, 'loops_at', None) is not None and \
+                len(h.loops_at) == len(path.loops) and \
+                all(a is b for a, b in zip(h.loops_at, path.loops)):
+            # s &= t / s -= t on a set created in this very iteration (or
+            # outside every loop): exactly the set operation on what s was
+            snap = self.snapshot(recv, path)
+            h.parts = [Part('spread', App(
+                'setop', Const('&' if name == 'intersection_update' else '-'),
+                snap, self.snapshot(args[0], path)))]
+            return [(path, Const(None))]
         if name in ('pop', 'remove', 'discard', 'clear', 'insert', 'sort',
                     'reverse', 'difference_update', 'intersection_update',
                     'symmetric_difference_update', 'popitem', 'setdefault'):
